@@ -126,6 +126,45 @@ func c02Scenarios(tier string) []*Scenario {
 			}
 		}
 	}
+	// a process that used up its restarts and completed is started again by hand: the limit and the reported count
+	// are those of the process, not of the instance (it was never stopped)
+	for _, pol := range []string{"always", "on_failure"} {
+		pol := pol
+		sc := &Scenario{
+			ID:         fmt.Sprintf("c02-manual-start-after-max-%s", pol),
+			YAML:       projectYAML(nil, PC{Name: "a", Restart: pol, Backoff: 1, Max: 1}, PC{Name: "x"}),
+			Procs:      map[string]*ProcScript{"a": {Launches: exits(1)}, "x": {}},
+			K:          0, // (thorough: k) every order of requests, exits and timers at quiescence; no deviations inside the calls
+			TickBudget: 5,
+			Snap:       true,
+		}
+		completed := func(w *World) bool { return w.lastStat["a"] == "Completed" && w.launches["a#0"] >= 2 }
+		sc.API = [][]APICall{{{Op: "start", Name: "a", When: completed}}}
+		sc.Check = func(w *World) []Violation {
+			tr := w.pre()
+			ret := findEvent(tr, 0, func(e Event) bool { return e.Kind == "api-ret" && !e.Flag })
+			if ret < 0 || (w.Outcome != "stuck" && w.Outcome != "completed") {
+				return nil
+			}
+			starts := 0
+			for _, e := range tr {
+				if e.Kind == "start" && e.Proc == "a#0" {
+					starts++
+				}
+			}
+			var vs []Violation
+			if relaunches := starts - 2; relaunches > 1 { // one automatic launch, one manual start
+				vs = append(vs, viol("C02", "max-restarts-exceeded:after-manual-start", "max_restarts 1: %d relaunches by policy in all (the manual start of the completed process began a new budget)", relaunches))
+			}
+			if w.Final != nil {
+				if st, ok := w.Final.States["a"]; ok && st.Restarts != starts-2 && starts >= 2 {
+					vs = append(vs, viol("C02", "restart-count:after-manual-start", "the process was relaunched %d times by its policy and never stopped, %d restarts are reported", starts-2, st.Restarts))
+				}
+			}
+			return vs
+		}
+		scs = append(scs, sc)
+	}
 	// max_restarts changed by a live update (nothing else changes): the new limit applies from then on
 	for _, pol := range []string{"always", "on_failure"} {
 		pol := pol
@@ -137,7 +176,7 @@ func c02Scenarios(tier string) []*Scenario {
 			ID:         fmt.Sprintf("c02-update-max-restarts-%s", pol),
 			YAML:       mkYAML(oldMax),
 			Procs:      map[string]*ProcScript{"a": {Launches: exits(1)}, "x": {}},
-			K:          k,
+			K:          0,
 			TickBudget: 8,
 			Horizon:    30 * time.Second,
 		}
